@@ -42,6 +42,9 @@ func leavesC04() []*qast.Node {
 	ls = append(ls, qast.Lf(qast.Leaf{Kind: qast.LGe, Field: "n", Val: qast.F("7.0")}))
 	ls = append(ls, qast.Lf(qast.Leaf{Kind: qast.LRange, Field: "n", Lo: qast.F("1.0"), Hi: qast.F("2.5"), Incl: true}))
 	ls = append(ls, qast.Lf(qast.Leaf{Kind: qast.LList, Field: "n", List: []qast.Value{qast.F("2.0"), qast.I("3")}}))
+	// a value repeated inside one list (every occurrence is a value and a parameter)
+	ls = append(ls, qast.Lf(qast.Leaf{Kind: qast.LList, Field: "n", List: []qast.Value{qast.I("1"), qast.I("2"), qast.I("1")}}))
+	ls = append(ls, qast.Lf(qast.Leaf{Kind: qast.LList, Field: "s", List: []qast.Value{qast.W("x"), qast.W("y"), qast.W("x"), qast.W("x")}}))
 	// patterns touching the regexp delimiters
 	for _, p := range []string{`b*\/`, `\/b*`, `\/b?\/c`, `a\/*\/`} {
 		ls = append(ls, qast.Lf(qast.Leaf{Kind: qast.LEq, Field: "s", Val: qast.Wi(p)}))
